@@ -187,6 +187,11 @@ def opShapes (op : String) (args : List String) : String :=
     | "m.segintersect", [a, b, c, d] => match segIntersect (affH a) (affH b) (affH c) (affH d) with
       | some x => "ok " ++ showRVec [x 0, x 1, x 2]
       | none => "ok none"
+    | "m.polyintersectline", _ => match vs.getLast? with
+      | some l =>
+        let pts := polyIntersectLine (vs.dropLast.map affH) (fun k => l.getD k 0)
+        "ok " ++ showTens ⟨[pts.length, 3], (pts.flatMap fun x => [(⟨x 0, 0⟩ : Q), ⟨x 1, 0⟩, ⟨x 2, 0⟩]).toArray⟩
+      | none => "bad-op"
     | "spec.shoelace2", _ => "ok " ++ showRat (Spec.shoelace2 vs)
     | "spec.vecarea2", _ => "ok " ++ showRVec (Spec.vectorArea2 vs)
     | "spec.centroidnum", _ => "ok " ++ showRVec (Spec.centroidNum vs)
@@ -307,7 +312,7 @@ def dispatch (op : String) (args : List String) : String :=
   | "spec.cr", [a, b, c, d] => match parseQ a, parseQ b, parseQ c, parseQ d with
     | some a, some b, some c, some d => "ok " ++ showQ (Spec.crParam a b c d)
     | _, _, _, _ => "bad-op"
-  | "m.polyfan2", _ | "m.polycontains", _ | "m.segcontains", _ | "m.tricontains", _ | "m.segintersect", _
+  | "m.polyfan2", _ | "m.polycontains", _ | "m.segcontains", _ | "m.tricontains", _ | "m.segintersect", _ | "m.polyintersectline", _
   | "spec.onsegment", _ | "spec.onray", _ | "spec.intriangle", _ | "spec.inpolygon", _ | "spec.shoelace2", _
   | "spec.vecarea2", _ | "spec.centroidnum", _ => opShapes op args
   | "spec.quadform", [a, p] => match parseTens a, parseVec p with
